@@ -21,6 +21,13 @@ type afCase struct {
 	Own     []string `json:"own"`
 	Foreign []string `json:"foreign"`
 	Expect  []string `json:"expect"`
+	Txs     []struct {
+		ID       int64 `json:"id"`
+		Src, Dst string
+	} `json:"txs"`
+	BySource      []int64 `json:"bySource"`
+	ByDestination []int64 `json:"byDestination"`
+	ByAccount     []int64 `json:"byAccount"`
 }
 
 func modeAddrFilter(in, out, statsPath string) {
@@ -49,6 +56,12 @@ func modeAddrFilter(in, out, statsPath string) {
 		for _, a := range c.Foreign {
 			h.Db.Accts = append(h.Db.Accts, dbAcct{Ledger: "l2", Addr: a, Ins: 1, Upd: 1, Md: md{}})
 		}
+		for _, t := range c.Txs {
+			// the same transactions in both ledgers of the bucket
+			for _, l := range []string{"l1", "l2"} {
+				h.Db.Txs = append(h.Db.Txs, dbTx{Ledger: l, ID: t.ID, Ts: 1, Upd: 1, Md: md{}, Postings: []posting{{t.Src, t.Dst, "USD", 1}}})
+			}
+		}
 		db := buildDB(h, "")
 		v := p.open(db, "l1")
 		ctx := context.Background()
@@ -71,6 +84,31 @@ func modeAddrFilter(in, out, statsPath string) {
 		sort.Strings(listed)
 		sort.Strings(c.Expect)
 		line := map[string]any{"filter": c.Filter, "own": c.Own, "expect": c.Expect, "listed": listed, "count": cnt}
+		if len(c.Txs) > 0 {
+			for _, k := range []struct{ key, out string }{{"source", "gotSource"}, {"destination", "gotDestination"}, {"account", "gotAccount"}} {
+				topts := ledgerstore.NewPaginatedQueryOptions(ledgerstore.PITFilterWithVolumes{}).
+					WithQueryBuilder(query.Match(k.key, c.Filter)).WithPageSize(100)
+				tl, err := v.store.GetTransactions(ctx, ledgerstore.NewGetTransactionsQuery(topts))
+				if err != nil {
+					fmt.Fprintf(os.Stderr, "GetTransactions(%s=%q): %v\n%v\n", k.key, c.Filter, err, p.unsup)
+					os.Exit(2)
+				}
+				ids := []int64{}
+				for _, t := range tl.Data {
+					ids = append(ids, t.ID.Int64())
+				}
+				line[k.out] = ids
+				if k.key == "account" {
+					n, err := v.store.CountTransactions(ctx, ledgerstore.NewGetTransactionsQuery(topts))
+					if err != nil {
+						fmt.Fprintf(os.Stderr, "CountTransactions(%q): %v\n%v\n", c.Filter, err, p.unsup)
+						os.Exit(2)
+					}
+					line["countAccount"] = n
+				}
+			}
+			line["bySource"], line["byDestination"], line["byAccount"] = c.BySource, c.ByDestination, c.ByAccount
+		}
 		n++
 		if len(c.Expect) > 0 {
 			nonEmpty++
